@@ -11,6 +11,8 @@ VARIABLE l
 Check(k, r) ==
   CASE r.kind = "text" -> IF r.err = "" /\ r.bytes = Utf8(r.text) /\ r.b64 = B64(Utf8(r.text)) /\ r.back = r.text /\ r.back2 = r.text THEN TRUE
                           ELSE PrintT(<<"VIOL", ToJson([rec |-> k, kind |-> "text", text |-> r.text, err |-> r.err, bytes |-> r.bytes, expbytes |-> Utf8(r.text), b64 |-> r.b64, expb64 |-> B64(Utf8(r.text))])>>)
+    [] r.kind = "hexbig" -> IF r.err = "" /\ r.hex = HexDec(r.n) /\ r.back = r.n THEN TRUE
+                         ELSE PrintT(<<"VIOL", ToJson([rec |-> k, kind |-> "hexbig", n |-> r.n, hex |-> r.hex, exphex |-> HexDec(r.n), back |-> r.back, err |-> r.err])>>)
     [] r.kind = "hex" -> IF r.err = "" /\ r.hex = Hex(r.n) /\ r.back = r.n THEN TRUE
                          ELSE PrintT(<<"VIOL", ToJson([rec |-> k, kind |-> "hex", n |-> r.n, hex |-> r.hex, exphex |-> Hex(r.n), err |-> r.err])>>)
     [] r.kind = "json" -> IF r.err = "" /\ r.got = Norm(r.tree) THEN TRUE
